@@ -98,6 +98,13 @@ partial def step (s : St) (line : String) : St × String :=
       | n :: h :: _ => s!"{n}:{h}"
       | _ => "?"
     (s, " ".intercalate parts)
+  | "creset" :: _ => ({}, "ok")
+  | ["cw", arg] => step s s!"w {arg}"
+  | ["csnap"] => (s, "ok")
+  | ["cdel", meas, lo, hi] => step s s!"del {meas} - {lo} {hi}"
+  | ["copy", cut, series, fields] =>
+    -- only a complete stream may be reported as a successful copy
+    if cut == "full" then step s s!"bk full {series} {fields}" else (s, "refused")
   | "crash" :: _ => (s, "ok")
   | "crashat" :: _ :: "snap" :: _ => (s, "ok")
   | "crashat" :: _ :: "compact" :: _ => (s, "ok")
